@@ -71,13 +71,21 @@ enum e1 { AA, BB = 5 }; typedef int (*fn_t)(int, char *); typedef foo_t arr_t[3]
 _ODD_CHARS = ['\ud800', '\udc80', '\udfff', '\udbff', '\uffff', '\U0001f600', '\U0010ffff', '\u20ac', '\xa0']
 
 # aggregate and enum *definitions* inside a type string: their errors surface when typeof() builds the type
-_INLINE_AGGS = ['struct { int a; char b; }', 'struct { int a; int a; }', 'union { int x; float x; }',
+_INLINE_AGGS = ['int); int (x', 'int); typedef int (t', 'int), (int', 'int; int', 'int) (', 'struct { int a; char b; }', 'struct { int a; int a; }', 'union { int x; float x; }',
                 'struct { int a; struct { int a; }; }', 'struct { int a, a; }', 'enum { X, X }', 'enum { A = -1, B }',
                 'struct { void v; }', 'struct { int a[]; int b; }', 'struct { int a:40; }', 'struct { float f:3; }',
                 'struct { struct s2 o; }', 'struct { int a:0; }', 'struct { int :0; }', 'struct { char c:9; }',
                 'struct { _Bool b:2; }', 'struct { int a:-1; }', 'struct { int x[-1]; }', 'struct { enum e1 z:40; }',
                 'struct { }', 'union { }', 'struct { int *p:3; }', 'struct { s1_t a; s1_t a; }',
                 'struct { int a; union { char c; short a; }; }', 'struct s9 { struct s9 *next; int v, v; }']
+
+
+_TRUNC_BASES = ['extern "Python" int f(int, char *);', 'extern "Python" { int f(int); long g(void); }',
+                'extern "Python+C" int f(int);', 'extern "C+Python" { void h(void); }',
+                'int f(int); extern "Python" void cb(int x);', 'typedef struct s { int a; char b[4]; } s_t;',
+                'enum e { A = 1 << 2, B = (A + 1) * 3, C };', '#define TEN 10\nextern int arr[TEN];',
+                'int (*fp)(int, ...); void __stdcall g(int);', 'struct s { int a:3; long :0; ...; };',
+                'typedef int (*fn_t)(int[], struct s *); extern fn_t table[...];', 'static const int K = 5;']
 
 
 def _type_strings():
@@ -195,6 +203,13 @@ def strategy(ctx):
         if which <= 7:
             text = draw(_type_strings())
             return {'entry': 'typeof', 'text': _mutate(draw, text), 'mutated_from_valid': True}
+        if which == 8 and draw(st.booleans()):
+            # a complete declaration text cut off at a token boundary (optionally followed by blanks): the
+            # text may end right after any keyword, marker or opening bracket
+            base = draw(st.sampled_from(_TRUNC_BASES))
+            cuts = [m.end() for m in re.finditer(r'[A-Za-z_][A-Za-z_0-9]*|"[^"]*"|[0-9]+|\S', base)]
+            text = base[:draw(st.sampled_from(cuts))] + draw(st.sampled_from(['', '', ' ', '\n', ' \n\t ']))
+            return {'entry': 'cdef', 'text': text, 'mutated_from_valid': True}
         if which == 8:
             text = ' '.join(draw(st.lists(st.sampled_from(FRAG_WORDS), min_size=0, max_size=12)))
             return {'entry': draw(st.sampled_from(['cdef', 'typeof'])), 'text': text[:MAXLEN],
